@@ -15,12 +15,9 @@ use std::io::{BufRead, Write};
 use std::panic::{catch_unwind, AssertUnwindSafe};
 use std::str::FromStr;
 
-// Must stay identical to the definition in assert-struct-macros/src/lib.rs
-// (the check driver compares the two texts on every run).
-struct AssertStruct {
-    value: syn::Expr,
-    pattern: Pattern,
-}
+// The definition in assert-struct-macros/src/lib.rs, copied by sync.sh (the check driver compares its
+// text with the two-field shape this harness mirrors on every run and reports a difference).
+include!("assert_struct_def.rs");
 
 fn panic_msg(e: Box<dyn std::any::Any + Send>) -> String {
     if let Some(s) = e.downcast_ref::<&str>() {
@@ -37,14 +34,16 @@ fn panic_msg(e: Box<dyn std::any::Any + Send>) -> String {
 ///   err  \t hex(message) \t span
 ///   lexerr
 ///   panic \t stage \t hex(message)
-fn run(text: &str) -> String {
+fn run(text: &str, observe_counter: bool) -> String {
     let text = &format!(" {}", text);
     let ts = match proc_macro2::TokenStream::from_str(text) {
         Ok(ts) => ts,
         Err(_) => return "lexerr".into(),
     };
     let parsed = catch_unwind(AssertUnwindSafe(|| syn::parse2::<AssertStruct>(ts)));
-    let counter_after = parse::next_node_id();
+    // Observing the counter draws an id, which a later invocation could see if the parser did not reset the counter itself:
+    // histories (`runq`) are run without the observation.
+    let counter_after = if observe_counter { parse::next_node_id().to_string() } else { "-".to_string() };
     let a = match parsed {
         Err(e) => return format!("panic\tparse\t{}", dump::hex(&panic_msg(e))),
         Ok(Err(e)) => return format!("err\t{}\t{}\t{}", dump::hex(&e.to_string()), dump::sp(e.span()), counter_after),
@@ -83,7 +82,8 @@ fn main() {
         let line = line.unwrap();
         let t: Vec<&str> = line.split_whitespace().collect();
         let a = match t.first().copied() {
-            Some("run") => run(&unhex(t.get(1).copied().unwrap_or("-"))),
+            Some("run") => run(&unhex(t.get(1).copied().unwrap_or("-")), true),
+            Some("runq") => run(&unhex(t.get(1).copied().unwrap_or("-")), false),
             Some("toks") => flat_tokens(&unhex(t.get(1).copied().unwrap_or("-"))),
             Some("ptoks") => parser_input(&unhex(t.get(1).copied().unwrap_or("-"))),
             _ => "bad-op".to_string(),
